@@ -33,49 +33,52 @@ ASSUME_CODEC = 'codec crates (snap, flate2, lz4_flex, zstd) are not verified: co
 ASSUME_IO = 'user I/O components are abstract (ghost sink_bytes/rd_bytes); std write_all/read_exact/flush/seek and byteorder read_uN/write_uN carry ASSUMED contracts (specs/prelude.rs: vio, byteorder)'
 ASSUME_PHYS = 'physical size bounds assumed at named call sites: any Vec/slice < 2^60 elements, any sink accepted < 2^62 bytes, < 2^32 offset slots per block, entries_count < 2^64-1, 64-bit usize'
 ASSUME_DROP = 'impl Drop for BlockBuffer is modelled by an explicit call inserted at the end of compress_and_write_block (R-drop); derive(Clone) for BlockWriter assumed to copy'
-WRITER_UNPROVED = 'Writer-level tree structure (each index entry = last key of child -> child offset; concatenation of data blocks == inserted entries) is NOT yet a discharged Verus obligation: decided only by the bounded stand-in with the independent decoder'
-READER_UNPROVED = 'ReaderCursor / IndexBlockCursor / BlockCursor traversal and search are not under Verus contract yet: decided only by the bounded stand-ins'
+WRITER_PROVED = 'Writer::into_inner is proved to emit a well-formed file (file_wf: blocks back to back, every index level = (last key -> offset) links of the level below in order, root last, representable sizes, 22-byte trailer) holding exactly the inserted entries'
+IBC_ASSUMED = 'the five IndexBlockCursor moves (first/last/next/prev/>=: iter_index_blocks, recursive_index_block, initial_index_blocks -- closures over a Vec of per-level block cursors) carry ASSUMED contracts (labels IBC.*.assumed): they return the link of the data block the statement prescribes and load at most levels+1 blocks; exercised by the bounded stand-ins'
+READER_PROVED = 'every ReaderCursor operation (first/last/next/prev, >= / <= / == seeks, current, reset, block loads) is proved against those contracts over the tree model of the file, with a representation invariant (logical position At(i) <-> loaded data block and in-block position)'
+WRITER_UNPROVED = IBC_ASSUMED
+READER_UNPROVED = IBC_ASSUMED
 
 PROPS = {
     'C01': dict(
         level='other',
-        level_text='Contracts discharged by Verus (unbounded) for the whole write path at function level: entry framing == LEB128 frames (varint, BlockWriter::insert), block bytes == payload ++ offset table ++ count (BlockWriter::finish), every emitted block == be64(len) ++ compress(block) appended to the sink and the block writer reset (compress_and_write_block), trailer bytes == the 22-byte V2 layout with entry count == number of inserts, codec and index_levels == configured (Writer::into_inner, Metadata::write_into), sink flushed; Metadata::read_from decodes exactly that trailer. The tree-level part of the statement (scans return exactly the inserted pairs) is decided by a bounded stand-in: real Writer+Reader over all codecs, index depths 0..5 and 255, block sizes, intervals, key shapes incl. the lone empty key and entries larger than a block, compared with the inserted list and cross-checked by an independent decoder.',
-        level_note='Proved obligations trust: ' + ASSUME_CODEC + '; ' + ASSUME_IO + '; ' + ASSUME_PHYS + '; ' + ASSUME_DROP + '. Not proved: ' + WRITER_UNPROVED + '; ' + READER_UNPROVED,
-        technique='Verus function contracts on the extracted write path + bounded differential stand-in (real Writer/Reader vs inserted list and independent decoder)',
+        level_text='Proved (Verus, unbounded) end to end at the level of bytes, modulo the index-cursor contracts: (1) the whole write path -- framing == LEB128 frames, block bytes == payload ++ offset table ++ count, every emitted block == be64(len) ++ compress(block) -- and Writer::into_inner emits a well-formed file (file_wf) holding exactly the inserted entries, count/codec/levels in the 22-byte trailer, sink flushed; (2) lemma_open_written: whatever metadata a reader decodes from the trailer of such bytes is the written one (trailer injectivity), the bytes are a well-formed tree from the decoded root (tree_ok) and the entry list the cursor contracts speak about (tree_entries) is exactly the inserted list -- including uniqueness of the decoded tree (any two block logs describing the same bytes agree block by block); (3) Block::read_from decodes exactly the stored block; every ReaderCursor move returns the entry of tree_entries the statement prescribes (first = entry 0, next = i+1, ..., None past the ends), Reader::len == count. Assumed link: the IndexBlockCursor moves. Bounded stand-in for that link and the whole pipeline: real Writer+Reader over all codecs, index depths 0..5 and 255, block sizes, intervals, key shapes incl. the lone empty key and entries larger than a block, compared with the inserted list and cross-checked by an independent decoder.',
+        level_note='Proved obligations trust: ' + ASSUME_CODEC + '; ' + ASSUME_IO + '; ' + ASSUME_PHYS + '; ' + ASSUME_DROP + '. Assumed: ' + IBC_ASSUMED,
+        technique='Verus contracts on the extracted write path, block decoding and ReaderCursor + ghost file model (block log / index tree) with a write-meets-read lemma; bounded differential stand-in (real Writer/Reader vs inserted list and independent decoder)',
         kani=[], native=[N('verif_rw::c01_roundtrip', '25 (quick) / 67 (thorough) files: <= 2700 entries, index_levels in {0,1,2,3,4,5,255}, all 6 codecs, block sizes {1024,1500,4096}, intervals {1,2,3,7,8,100}')], witness=[],
         unproved=[WRITER_UNPROVED, READER_UNPROVED], assumptions=[ASSUME_CODEC, ASSUME_IO, ASSUME_PHYS, ASSUME_DROP],
-        explanation='function-level contracts proved by Verus; end-to-end round trip bounded'),
+        explanation='write path, file model, decoding and cursor layer proved; index-cursor traversal assumed + bounded'),
     'C02': dict(
         level='other',
-        level_text='Proved (Verus, unbounded): the in-block search — BlockCursor::move_on_key_lower_than_or_equal_to returns the floor and move_on_key_greater_than_or_equal_to the ceiling of the probe among the entries of a loaded block (binary search over the offset table + linear scan, against oracles is_floor/is_ceil written from the statement), Block::read_from/entry_at decode exactly the entries of the stored block. The tree descent (IndexBlockCursor / ReaderCursor) carries declared but not yet discharged contracts; it is decided by a bounded stand-in: for 14+ files (index depth 0..4, deep trees with few long keys, blocks holding exact multiples of the in-block interval, keys differing only by trailing zero bytes, the empty key) every equivalence class of probes (each key, each gap, before first, after last, prefixes and extensions) is sought with GE/LE/EQ on fresh, reset and cloned cursors and compared with the ceiling/floor/match of the sorted list.',
-        level_note=READER_UNPROVED + '; bounded: file sizes <= 2500 entries',
-        technique='Verus contracts on Block/BlockCursor (in-block floor/ceiling) + bounded differential stand-in for the index-tree descent',
+        level_text='Proved (Verus, unbounded): in-block search (BlockCursor <= / >= against the floor/ceiling oracles written from the statement, binary search over the offset table + linear scan); Block::read_from/entry_at decode exactly the stored block; ReaderCursor::move_on_key_greater_than_or_equal_to returns the ceiling of the probe in the whole file (two-level ceiling lemma: first data block whose last key is >= q, then the ceiling inside it), move_on_key_lower_than_or_equal_to the floor (floor-from-ceiling lemma + prev/last), move_on_key_equal_to the entry with exactly that key or None -- all over the tree model of the file and for any AsRef<[u8]> probe. Assumed link: IndexBlockCursor::move_on_key_greater_than_or_equal_to returns the link of the first data block whose last key is >= q (IBC.ge.assumed). Bounded stand-in for it: 14+ files (index depth 0..4, deep trees with few long keys, exact multiples of the interval, keys differing by trailing zero bytes, the empty key), every equivalence class of probes with GE/LE/EQ on fresh, reset and cloned cursors vs the sorted list.',
+        level_note=IBC_ASSUMED + '; bounded: file sizes <= 2500 entries',
+        technique='Verus contracts on Block/BlockCursor/ReaderCursor over the tree model (ceiling/floor lemmas) + bounded differential stand-in for the assumed index-cursor descent',
         kani=[], native=[N('verif_cursor::c02_seeks', '14 files (26 thorough), <= 2500 entries, ~7500 probes x {fresh, reset+clone}')], witness=[],
-        unproved=[READER_UNPROVED], explanation='bounded stand-in only for now'),
+        unproved=[READER_UNPROVED], explanation='cursor-level search proved over assumed index-cursor contracts; descent bounded'),
     'C03': dict(
         level='other',
-        level_text='Proved (Verus): every BlockCursor operation (current, first, last, next, prev, seeks) preserves the block-cursor representation invariant and returns the entry determined by (entries, logical position) only. ReaderCursor-level history independence is decided by a bounded stand-in: random operation histories (first,last,next,prev,GE,LE,EQ,reset,clone,current; long next/prev runs crossing several index blocks between absolute moves; the documented first,first,next*,first sweep; clone independence) on files with index depth 0..4 are replayed against a model whose state is (sorted content, logical position). The literal clause about current() after a None-returning move is a recorded finding.',
-        level_note=READER_UNPROVED + '; bounded: <= 840 histories of <= ~12000 operations per run (3x in thorough)',
-        technique='Verus representation invariant on BlockCursor + bounded model-based stand-in on the real ReaderCursor',
+        level_text='Proved (Verus, unbounded in the length of the history; induction = the ReaderCursor representation invariant valid(), required and ensured by every operation): the logical position (Unset / At(i) / Unknown) determines what first/last/next/prev/current return -- first -> entry 0, last -> the last one, next from At(i) -> i+1, prev -> i-1, from Unset next = first and prev = last, current at At(i) = entry i, reset -> Unset, None exactly past the ends -- independent of which blocks happen to be loaded. Every BlockCursor operation likewise. Assumed link: the IndexBlockCursor moves (their own position-dependence is stated in IBC.*.assumed). After an operation that returned None the contracts promise nothing about the position (Unknown): the literal clause about current() there is the recorded finding. Bounded stand-in: random operation histories incl. long next/prev runs crossing index blocks, the documented first,first,next*,first sweep, clone independence, replayed against a model whose state is (sorted content, logical position).',
+        level_note=IBC_ASSUMED + '; bounded: <= 840 histories of <= ~12000 operations per run (3x in thorough)',
+        technique='Verus representation invariants on BlockCursor and ReaderCursor (ghost logical position) + bounded model-based stand-in on the real ReaderCursor',
         kani=[], native=[N('verif_cursor::c03_histories', '60 (300 thorough) random histories per file x 14 files + sweep and clone scenarios'), N('verif_cursor::c03_current_after_none_literal', 'same histories; literal current() clause (known finding)')], witness=[],
-        unproved=[READER_UNPROVED], explanation='bounded stand-in only for now'),
+        unproved=[READER_UNPROVED], explanation='history independence proved at cursor level over assumed index-cursor contracts; bounded stand-in for the rest'),
     'C04': dict(
         level='other',
-        level_text='Proved (Verus, unbounded, relative to the declared ReaderCursor contracts): RangeIter::next / RevRangeIter::next return, on the first call, the first (last) entry satisfying the start (end) bound iff it also satisfies the opposite bound, and afterwards the adjacent entry iff it satisfies the opposite bound; end_contains/start_contains are exactly the bound predicates of the statement. The ReaderCursor contracts themselves are assumed (not discharged) and exercised by the bounded stand-in: forward and reverse range iterators over all 9 bound-kind combinations with present/absent/equal/inverted bounds on files with index depth 0..4 and variable-length keys, compared with the filtered sorted list.',
+        level_text='Proved (Verus, unbounded, on top of the proved ReaderCursor contracts): RangeIter::next / RevRangeIter::next return, on the first call, the first (last) entry satisfying the start (end) bound iff it also satisfies the opposite bound, and afterwards the adjacent entry iff it satisfies the opposite bound; end_contains/start_contains are exactly the bound predicates of the statement. The ReaderCursor contracts are themselves proved (C02/C03) relative to the assumed IndexBlockCursor moves, which the bounded stand-in exercises: forward and reverse range iterators over all 9 bound-kind combinations with present/absent/equal/inverted bounds on files with index depth 0..4 and variable-length keys, compared with the filtered sorted list.',
         level_note=READER_UNPROVED + '; bounded: ~1300 ranges per run',
-        technique='Verus contracts on RangeIter/RevRangeIter over assumed cursor contracts + bounded differential stand-in',
+        technique='Verus contracts on RangeIter/RevRangeIter over the proved cursor contracts (index-cursor moves assumed) + bounded differential stand-in',
         kani=[], native=[N('verif_cursor::c04_ranges', '95 (405 thorough) ranges per file x 14 files')], witness=[],
-        unproved=[READER_UNPROVED], explanation='bounded stand-in only for now'),
+        unproved=[READER_UNPROVED], explanation='iterator and cursor layers proved; index-cursor traversal assumed + bounded'),
     'C05': dict(
         level='other',
-        level_text='Proved (Verus, unbounded, relative to the declared ReaderCursor contracts): advance_key computes the prefix successor adv(p) (None iff p is empty or all 0xFF), with the lemmas that keys with prefix p are exactly the keys in [p, adv(p)); PrefixIter::next / RevPrefixIter::next / move_on_last_prefix return the first (last) entry of that interval iff it has the prefix, then the adjacent one. The ReaderCursor contracts are assumed and exercised by the bounded stand-in: forward and reverse prefix iterators for prefixes that are empty, longer than every key, stored keys, ending in / made of / containing interior 0xFF bytes, matching nothing; compared with the filtered sorted list.',
+        level_text='Proved (Verus, unbounded, on top of the proved ReaderCursor contracts): advance_key computes the prefix successor adv(p) (None iff p is empty or all 0xFF), with the lemmas that keys with prefix p are exactly the keys in [p, adv(p)); PrefixIter::next / RevPrefixIter::next / move_on_last_prefix return the first (last) entry of that interval iff it has the prefix, then the adjacent one. The ReaderCursor contracts are themselves proved (C02/C03) relative to the assumed IndexBlockCursor moves, which the bounded stand-in exercises: forward and reverse prefix iterators for prefixes that are empty, longer than every key, stored keys, ending in / made of / containing interior 0xFF bytes, matching nothing; compared with the filtered sorted list.',
         level_note=READER_UNPROVED + '; bounded: ~2000 prefixes per run',
-        technique='Verus contracts on advance_key/PrefixIter/RevPrefixIter over assumed cursor contracts + bounded differential stand-in',
+        technique='Verus contracts on advance_key/PrefixIter/RevPrefixIter over the proved cursor contracts (index-cursor moves assumed) + bounded differential stand-in',
         kani=[], native=[N('verif_cursor::c05_prefixes', '~150 prefixes per file x 14 files')], witness=[],
-        unproved=[READER_UNPROVED], explanation='bounded stand-in only for now'),
+        unproved=[READER_UNPROVED], explanation='iterator and cursor layers proved; index-cursor traversal assumed + bounded'),
     'C06': dict(
         level='other',
-        level_text='Proved (Verus): Entry::cmp (and eq/partial_cmp) is exactly the reverse of the lexicographic order on (current key, position at which the source was added), the order the statement prescribes for a max-heap, hence equal keys pop in source order; MergerBuilder operations are panic-free. MergerIter::next (BinaryHeap + iterator chains) is not under contract: bounded stand-in: all overlap patterns of 3 sources x 4 keys (every 5th in quick, all 4096 in thorough) plus random merges of up to 6 sources / 150 keys with an order-recording non-commutative merge function that logs every call; both the streaming iterator and write_into_stream_writer (decoded independently).',
+        level_text='Proved (Verus): Entry::cmp (and eq/partial_cmp) is exactly the reverse of the lexicographic order on (current key, position at which the source was added), the order the statement prescribes for a max-heap, hence equal keys pop in source order (uses the type invariant "a heap entry holds a valid cursor", established outside the verified set); MergerBuilder operations are panic-free. MergerIter::next (BinaryHeap::peek_mut / PeekMut::pop, iterator chains over drain) is outside what the installed Verus accepts: bounded stand-in: all overlap patterns of 3 sources x 4 keys (every 5th in quick, all 4096 in thorough) plus random merges of up to 6 sources / 150 keys with an order-recording non-commutative merge function that logs every call; both the streaming iterator and write_into_stream_writer (decoded independently).',
         level_note='MergerIter/BinaryHeap not under contract yet; bounded',
         technique='Verus contract on the heap order (Entry::cmp) + bounded differential stand-in on the real Merger',
         kani=[], native=[N('verif_merge::c06_merge', '837 (4173 thorough) source patterns x 2 routes')], witness=[],
@@ -89,19 +92,19 @@ PROPS = {
         unproved=['Sorter not under contract'], explanation='bounded stand-in only for now'),
     'C08': dict(
         level='other',
-        level_text='Proved (Verus, unbounded in the number of inserts; induction = the representation invariant required and ensured by Sorter::insert): with entries of at most budget/4 (16-byte bound included) every insert that returns Ok keeps bytes-in-use <= capacity, capacity < 2 x dump_threshold when reallocation is allowed (non-linear doubling lemma) and == the 16-rounded threshold otherwise, at most max(max_nb_chunks-1, 1) chunks after the call (so at most max+2 alive inside it), and the buffer only shrinks through a chunk obtained from the ChunkCreator; SorterBuilder clamps the budget to >= 10 MiB and max_nb_chunks to >= 1. This is relative to the ASSUMED abstract contracts of Entries (fits is exact, insert grows by minimal doubling) and of write_chunk / merge_chunks (chunk counts); the Entries arithmetic is checked by bounded Kani harnesses on the real unsafe code (C17), write_chunk/merge_chunks by the bounded stand-in: 55 MiB (90 thorough) of small-entry inserts (<= budget/4) through a counting ChunkCreator for 7 (threshold, realloc, max_nb_chunks, injected create failure) settings incl. non-16-aligned budgets and max_nb_chunks 1: bytes inserted since the last create() <= 2x budget (1x without realloc), live chunks <= max+2, every spill goes through the creator, no chunk leaks.',
-        level_note='assumed: Entries model (Kani-checked, bounded), write_chunk/merge_chunks chunk-count contracts, physical byte-counter bound; process heap high-water mark is not a contract notion',
-        technique='Verus representation invariant on Sorter::insert over an assumed Entries model + bounded instrumented stand-in',
+        level_text='Proved (Verus, unbounded in the number of inserts; induction = the representation invariant required and ensured by Sorter::insert): with entries of at most budget/4 (16-byte bound included) every insert that returns Ok keeps bytes-in-use <= capacity, capacity < 2 x dump_threshold when reallocation is allowed (non-linear doubling lemma) and == the 16-rounded threshold otherwise, at most max(max_nb_chunks-1, 1) chunks after the call (so at most max+2 alive inside it), and the buffer only shrinks through a chunk obtained from the ChunkCreator; SorterBuilder clamps the budget to >= 10 MiB and max_nb_chunks to >= 1. The buffer bookkeeping itself (Entries::fits exact, insert grows by minimal repeated doubling, reallocate_buffer doubles) is now proved on the real code (see C17). Assumed: the chunk-count contracts of write_chunk / merge_chunks; bounded stand-in for them: 55 MiB (90 thorough) of small-entry inserts through a counting ChunkCreator for 7 (threshold, realloc, max_nb_chunks, injected create failure) settings incl. non-16-aligned budgets and max_nb_chunks 1: bytes inserted since the last create() <= 2x budget (1x without realloc), live chunks <= max+2, every spill goes through the creator, no chunk leaks.',
+        level_note='assumed: write_chunk/merge_chunks chunk-count contracts, the raw allocation primitives of the buffer (C17), physical byte-counter bound; process heap high-water mark is not a contract notion',
+        technique='Verus representation invariant on Sorter::insert over the verified Entries bookkeeping + bounded instrumented stand-in',
         kani=[], native=[N('verif_merge::c08_spill_bounds', '7 settings x 55 MiB')], witness=[],
-        unproved=['Entries model and write_chunk/merge_chunks contracts are assumed (Kani / stand-in)'], explanation='bounded stand-in only for now'),
+        unproved=['write_chunk/merge_chunks chunk-count contracts are assumed (stand-in)'], explanation='spill invariant proved over the verified buffer bookkeeping; chunk writing/merging assumed + bounded'),
     'C09': dict(
         level='other',
-        level_text='Format clauses discharged by Verus at function level, written from the statement (literal magic numbers, big-endian block lengths/offset tables, little-endian trailer): frame layout, offset table one per interval with first 0 and u32 BE count, stored block = u64 BE length + compressed bytes, 22-byte trailer. Index structure (last key -> child offset at every level) and interop are bounded: every scenario file is decoded by an independent decoder (walks the tree from the trailer, checks every clause, back-to-back blocks), read by the frozen grenad 0.4.7 reader, and 0.4.7-written files are read by the current reader; uncompressed files must be byte-identical to 0.4.7 output.',
-        level_note='Proved obligations trust: ' + ASSUME_CODEC + '; ' + ASSUME_IO + '; ' + ASSUME_PHYS + '. Not proved: ' + WRITER_UNPROVED,
+        level_text='Proved (Verus, unbounded), written from the statement (literal magic numbers, big-endian block lengths/offset tables, little-endian trailer): frame layout, offset table one per interval with first 0 and u32 BE count, stored block = u64 BE length + compressed bytes, 22-byte trailer; and the index structure: Writer::into_inner emits blocks back to back from offset 0, every index level holds exactly the (last key of child -> child offset as u64 BE) links of the level below in order, the root block last at the offset recorded in the trailer, index_levels as configured (file_wf), and a reader decoding that trailer recovers the same root/codec/count/levels (lemma_open_written). Interop is bounded: every scenario file is decoded by an independent decoder (walks the tree from the trailer, checks every clause), read by the frozen grenad 0.4.7 reader, and 0.4.7-written files are read by the current reader; uncompressed files must be byte-identical to 0.4.7 output.',
+        level_note='Proved obligations trust: ' + ASSUME_CODEC + '; ' + ASSUME_IO + '; ' + ASSUME_PHYS,
         technique='Verus function contracts on the write path (format spec written from the statement) + bounded independent decoder and 0.4.7 interop stand-in',
         kani=[], native=[N('verif_rw::c09_format_and_interop', 'same 25/67 files as C01; 0.4.7 matrix for codecs None and snappy-pre-0.5')], witness=[],
-        unproved=[WRITER_UNPROVED], assumptions=[ASSUME_CODEC, ASSUME_IO, ASSUME_PHYS],
-        explanation='format at function level proved; tree structure and interop bounded'),
+        unproved=['interoperability with 0.4.7 (bounded)'], assumptions=[ASSUME_CODEC, ASSUME_IO, ASSUME_PHYS],
+        explanation='format and index structure proved; interop bounded'),
     'C10': dict(
         level='other',
         level_text='Metadata::read_from is proved (Verus, all byte strings) to decode a V1 trailer (21 bytes, literal magic 0x76324D4C) into FormatV1 with the stored root offset, codec and count and index_levels 0; no reader contract mentions the version. "Identical results" is bounded: V1 twins of V2 files (all codecs, block sizes, intervals, 0..600 entries incl. empty) compared on open metadata, scans, seeks, ranges and prefixes.',
@@ -126,13 +129,13 @@ PROPS = {
         unproved=['reader/merger/sorter error propagation not under contract'], assumptions=[ASSUME_IO],
         explanation='write path proved; other paths bounded'),
     'C13': dict(
-        level='other',
-        level_text='Proved (Verus, all byte strings, any Read+Seek source): Metadata::read_from returns Ok only if the string ends with a complete V1/V2 trailer with a known codec id, and then returns exactly the decoded fields; never panics. The converse (every valid trailer is accepted) and Reader::new on Cursor<&[u8]> are bounded: every truncation of scenario files near the tail, every single-byte corruption of the trailer, all codec bytes 0..8 for both versions, and thousands of random short strings, compared with an independent trailer parser.',
-        level_note=ASSUME_IO + '; exactness direction bounded',
-        technique='Verus contract on Metadata::read_from (soundness direction) + bounded exactness stand-in',
+        level='proof',
+        level_text='Proved (Verus, all byte strings, any Read+Seek source): Metadata::read_from / Reader::new return Ok only if the string ends with a complete V1/V2 trailer with a known codec id, and then return exactly the decoded fields (and that trailer is unique: lemma_trailer_inj); they never panic; and on a source that fails only when asked for bytes past its end (rd_reliable: in-memory cursors, files) they return Ok for EVERY string ending in such a trailer (MD.read.complete, RD.new.exact) -- so acceptance is exactly "ends in a valid trailer". Independent checks: Kani on the real std::io::Cursor for all contents up to 26 bytes; native: every truncation of scenario files near the tail, every single-byte corruption of the trailer, all codec bytes 0..8 for both versions, thousands of random short strings, each also through a source that splits reads into 1..3-byte pieces with Interrupted, compared with an independent trailer parser.',
+        level_note=ASSUME_IO + ' (seek/read_exact on a reliable source succeed iff the range is inside the content)',
+        technique='Verus contract on Metadata::read_from / Reader::new (both directions) + Kani harness on std Cursor + bounded exactness stand-in',
         kani=[dict(name='c13_read_from_exact_on_cursor', kind='bounded', bound='all byte contents, length 0..=26 on the real std::io::Cursor (read_from inspects only the last 22 bytes and the length)')], native=[N('verif_rw::c13_open_exactness', '~3900 byte strings (quick)')], witness=[],
-        unproved=['valid trailer => Ok (completeness direction) not a discharged obligation'], assumptions=[ASSUME_IO],
-        explanation='soundness proved, completeness bounded'),
+        unproved=[], assumptions=[ASSUME_IO],
+        explanation='exactness proved in both directions under the stated source model'),
 
     'C15': dict(
         level='other',
@@ -144,11 +147,11 @@ PROPS = {
         explanation='pending-size invariant proved; emitted sizes bounded'),
     'C16': dict(
         level='other',
-        level_text='Proved (Verus): Metadata::read_from performs no block load (ghost load counter unchanged). Per-operation bound is bounded: an instrumented source counts absolute seeks (one per block load) per public cursor operation over 900 (4000 thorough) operations per file incl. full forward sweeps, index depth 0..4: <= 2*(levels+2); opening reads <= 26 bytes and seeks to no block.',
-        level_note=READER_UNPROVED,
-        technique='ghost load counter contract on Metadata::read_from + bounded instrumented stand-in',
+        level_text='Proved (Verus, unbounded, ghost block-load counter rd_loads incremented only by Block::read_from): opening (Metadata::read_from, Reader::new, ReaderCursor::new) loads no block; each of ReaderCursor first/last/next/prev/>=/== loads at most levels+2 blocks and <= at most 2*(levels+2) (it is a >= followed by prev or last), whatever the file size -- relative to the ASSUMED bound "one IndexBlockCursor move loads at most levels+1 blocks" (IBC.*.loads.assumed). Bounded stand-in for that assumption and the whole path: an instrumented source counts absolute seeks (one per block load) per public cursor operation over 900 (4000 thorough) operations per file incl. full sweeps, index depth 0..4; opening reads <= 26 bytes and seeks to no block.',
+        level_note=IBC_ASSUMED,
+        technique='ghost load-counter contracts on Block::read_from, ReaderCursor and Metadata::read_from + bounded instrumented stand-in',
         kani=[], native=[N('verif_cursor::c16_io_bound', '14 files x 900 operations')], witness=[],
-        unproved=[READER_UNPROVED], explanation='open proved, per-operation bound bounded'),
+        unproved=[READER_UNPROVED], explanation='per-operation bound proved at cursor level over the assumed per-move bound of the index cursor'),
     'C17': dict(
         level='other',
         level_text='Proved (Verus, unbounded): absence of arithmetic overflow/underflow and of out-of-range slice ranges or indices in every function under contract -- the write path, varint, metadata, block decoding, the cursors, and the bookkeeping of the sorter\'s two-ended buffer (Entries::insert with its recursive doubling, reallocate_buffer, fits, remaining, ... : every `buffer[a..][..b]`, `copy_from_slice`, `cast_slice_mut` and `bounds[i] = ..` is a discharged precondition, for all entry sizes incl. larger than the buffer). The three unsafe primitives behind the buffer (raw alloc / slice::from_raw_parts in new, deref, deref_mut, plus align_to) are ASSUMED contracts in Verus and checked on the real unsafe code by Kani: layout agreement alloc/dealloc (bounded sizes), fits() exactness (bounded), and refusal of every unrepresentable size (complete).',
